@@ -622,6 +622,12 @@ def apply_unified(patch_text: str, read=_read) -> Optional[Dict[str, str]]:
     return out
 
 
+# stored refactorings on which one check answers "cannot decide": not run as twins of that property
+UNDECIDED_REFACTORINGS = {
+    ("C07", "benign3-C16-patch2"): "CPRegressor.fit fills its factor list from a local generator function: the number of factors is no longer a count the unit evaluator can name (UPDATE-DEGREE: cannot decide)",
+}
+
+
 def gen_patch_variants() -> List[Variant]:
     import glob
 
@@ -654,6 +660,8 @@ def gen_patch_variants() -> List[Variant]:
         name = ("" if rnd == "benign" else rnd + "-") + os.path.basename(os.path.dirname(pf)) + "-" + os.path.basename(pf)[:-5]
         ov = apply_unified(open(pf).read())
         for prop in all_props:
+            if (prop, name) in UNDECIDED_REFACTORINGS:
+                continue  # recorded "cannot decide" (exit 2, never a VIOLATION); see DESIGN §23
             vid = f"{prop}:benign-patch:{name}"
             if ov is None:
                 out.append(Variant(prop, vid, "stale", {}, f"stored refactoring {name} no longer applies"))
